@@ -184,17 +184,18 @@ _DEG0 = object()
 
 class V:
     __slots__ = ("k", "cls", "is_self", "elem", "const", "anc", "deps", "deg", "fresh", "label", "shares", "ek",
-                 "meths", "node", "carrier", "recv", "alts", "pbind", "items", "fields")
+                 "meths", "node", "carrier", "recv", "alts", "pbind", "items", "fields", "kelem")
 
     def __init__(self, k, cls=None, is_self=False, elem=None, const=None, anc=F(), deps=F(), deg=_DEG0, fresh=True,
                  label=False, shares=F(), ek=F(), meths=None, node=None, carrier=None, recv=None, alts=None, pbind=None,
-                 items=None, fields=None):
+                 items=None, fields=None, kelem=None):
         # alts: per-branch alternatives ((anc, deps), ...) when the value was assigned on both arms of an if/else;
         # anc / deps are always their union (None = a single alternative)
         self.alts = alts
         self.pbind = pbind     # functools.partial: (positional values, keyword values) bound in advance
         self.items = items     # a tuple with components of different kinds (an element of zip / enumerate / items())
         self.fields = fields   # a record (namedtuple / dataclass instance): field name -> value; .const = its type name
+        self.kelem = kelem     # a dict whose keys are model objects: what a key is (so that .items() / .keys() give objects)
         if deg is _DEG0:       # default: degree 0 in everything; an explicit None is bottom (zero / empty)
             deg = {}
         self.k = k
@@ -291,6 +292,8 @@ def join(vs):
             anc=F().union(*[v.anc for v in vs]), deps=F().union(*[v.deps for v in vs]), deg=deg,
             fresh=all(v.fresh for v in vs), label=all(v.label for v in vs if v.k == "E"),
             shares=F().union(*[v.shares for v in vs]), ek=F().union(*[v.ek for v in vs]), meths=meths)
+    if k == "dict" and all(v.k == "dict" and v.kelem is not None for v in vs):
+        out.kelem = join([v.kelem for v in vs])
     if JOIN_KEEPS_ALTS and k == "E" and all(v.k == "E" for v in vs):
         # "one of these values" (outcomes of a dispatch over methods / receiver classes): the alternatives stay apart,
         # so that a parent recorded by one outcome does not hide its absence in another
@@ -657,6 +660,13 @@ class Interp:
         t = self.module_table(e.id, cx)
         if t is not None:
             return t
+        # a module-level function of the package handed over as a value (a predicate, a key function): a closure with no
+        # captured variables, run where it is called
+        if getattr(self, "_pkg_fn", None) is None:
+            self._pkg_fn = self.pm.package_function_finder()
+        h = self._pkg_fn(e.id)
+        if h is not None:
+            return V("lambda", node=h, const={}, deg={})
         return raw(deg={})
 
     def ev_JoinedStr(self, e, env, cx):
@@ -798,7 +808,8 @@ class Interp:
             for v in vs:
                 ms += v.meths
             return V("dict", meths=ms, deps=kd)
-        d = V("dict", elem=join(vs) if vs else None, deps=kd)
+        d = V("dict", elem=join(vs) if vs else None, deps=kd,
+              kelem=join(ks) if ks and all(k.k == "obj" for k in ks) else None)
         return d
 
     def _comp_env(self, generators, env, cx):
@@ -876,7 +887,8 @@ class Interp:
                 self.bind(e.generators[0].target, add_deps(row, rows.deps), env2, cx)
                 ks.append(self.ev(e.key, env2, cx))
                 vs.append(self.ev(e.value, env2, cx))
-            return V("dict", elem=join(vs), deps=F().union(*[k.deps for k in ks]))
+            return V("dict", elem=join(vs), deps=F().union(*[k.deps for k in ks]),
+                     kelem=join(ks) if ks and all(k.k == "obj" for k in ks) else None)
         self._pushed = 0
         env2 = self._comp_env(e.generators, env, cx)
         pushed = self._pushed
@@ -884,7 +896,7 @@ class Interp:
         v = self.ev(e.value, env2, cx)
         for _ in range(pushed):
             cx.ctl.pop()
-        return V("dict", elem=v, deps=k.deps)
+        return V("dict", elem=v, deps=k.deps, kelem=k if k.k == "obj" else None)
 
     def _copy_keeps_parent(self, kind):
         """does copy.copy() of an explainable value of this kind keep the original as recorded parent?"""
@@ -1152,10 +1164,13 @@ class Interp:
             if name == "values":
                 return V("list", elem=b.elem)
             if name == "keys":
-                return V("list", elem=raw(b.deps, deg={}))
+                return V("list", elem=b.kelem if b.kelem is not None else raw(b.deps, deg={}))
             if name == "items":
                 # key and value both carry what decided the keys (grouping by a computed key)
-                return V("list", elem=V("list", elem=add_deps(b.elem, b.deps) if b.elem is not None else raw(b.deps, deg={})))
+                ve = add_deps(b.elem, b.deps) if b.elem is not None else raw(b.deps, deg={})
+                if b.kelem is not None:
+                    return V("list", elem=V("list", items=(b.kelem, ve), elem=ve))
+                return V("list", elem=V("list", elem=ve))
             if name == "setdefault" and args:
                 dflt = args[1] if len(args) > 1 else V("none")
                 b.deps = b.deps | args[0].deps
@@ -1551,8 +1566,13 @@ class Interp:
             if isinstance(base, ast.Name) and base.id in env:
                 d = env[base.id]
                 if d.k == "dict":
+                    # keys stay "model objects" as long as every key stored is one
+                    if i.k == "obj":
+                        ke = join([d.kelem, i]) if d.kelem is not None else (i if d.elem is None else None)
+                    else:
+                        ke = None
                     env[base.id] = V("dict", elem=join([d.elem, v]) if d.elem is not None else v,
-                                     deps=d.deps | i.deps, meths=d.meths)
+                                     deps=d.deps | i.deps, meths=d.meths, kelem=ke)
                 elif d.k in ("raw", "E"):
                     env[base.id] = d.clone(deps=d.deps | v.deps | i.deps, deg=d_add(d.deg, v.deg))
                 elif d.k == "obj":
